@@ -176,3 +176,88 @@ Proof.
   unfold pkts in *. cbn [map concat fst]. rewrite !map_app. f_equal; [exact H1|].
   rewrite IH, Hs1. reflexivity.
 Qed.
+
+(* ---- AVCC mode: several NAL units per AvPacket ---- *)
+(* the wire image of a unit list depends only on its (timestamp, payload) sequence *)
+Definition flat (units : list wire_unit) : list (N * bytes) :=
+  concat (map (fun u : wire_unit => map (pair (fst (fst u))) (snd (fst u))) units).
+
+Fixpoint arr (s : N) (l : list (N * bytes)) : list (N * N * bytes) :=
+  match l with
+  | [] => []
+  | (ts, p) :: t => (s, ts, p) :: arr (seq_succ s) t
+  end.
+
+Lemma arr_app : forall a b s, (s < 65536)%N ->
+  arr s (a ++ b) = arr s a ++ arr (seq_add s (lenN a)) b.
+Proof.
+  induction a as [|[ts p] t IH]; intros b s Hs.
+  - cbn. rewrite seq_add_0 by assumption. reflexivity.
+  - cbn [app arr]. f_equal. rewrite IH by (unfold seq_succ, seq_mod; lia). f_equal. f_equal.
+    rewrite seq_add_succ. f_equal. unfold lenN. cbn [length]. lia.
+Qed.
+
+Lemma arr_mk_upkts pr ts : forall pls s,
+  map upkt_arrival (mk_upkts pr s ts pls) = arr s (map (pair ts) pls).
+Proof. induction pls as [|p t IH]; intros s; [reflexivity|]. cbn [mk_upkts map arr]. f_equal. apply IH. Qed.
+
+Lemma arrivals_flat pr : forall units s, (s < 65536)%N ->
+  map upkt_arrival (pkts (unit_stream pr s units)) = arr s (flat units).
+Proof.
+  induction units as [|[[ts pls] o] t IH]; intros s Hs; [reflexivity|].
+  unfold pkts, flat in *. cbn [unit_stream map concat fst snd].
+  rewrite map_app, arr_app by assumption. rewrite arr_mk_upkts. f_equal.
+  rewrite IH by apply seq_add_lt. f_equal. unfold lenN. rewrite map_length. reflexivity.
+Qed.
+
+Definition not_aud (c : vcodec) (nal : bytes) : bool := negb (is_aud c nal).
+
+Definition frame_payloads (c : vcodec) (maxp : N) (nals : list bytes) : list bytes :=
+  concat (map (payloads_of c maxp) (filter (not_aud c) nals)).
+
+Lemma pack_nals_frame c maxp : (fu_hdr_size c < maxp)%N -> forall nals,
+  pack_nals true c nals maxp = Ok (frame_payloads c maxp nals).
+Proof.
+  intros Hh. induction nals as [|nal t IH]; [reflexivity|].
+  unfold frame_payloads in *. cbn [pack_nals filter]. unfold not_aud at 1.
+  destruct (is_aud c nal); cbn [negb]; [exact IH|].
+  destruct (pack_nal_total c nal maxp Hh) as [pls Ep]. rewrite Ep, IH. cbn [bind map concat].
+  unfold payloads_of at 2. rewrite Ep. reflexivity.
+Qed.
+
+(* Pack in AVCC mode: the payloads of one AvPacket *)
+Lemma pack_video_frame_payloads c maxp nals : (fu_hdr_size c < maxp)%N ->
+  pack_video_frame true c nals maxp = Ok (frame_payloads c maxp nals).
+Proof.
+  intros Hh. unfold pack_video_frame. destruct (maxp =? 0)%N eqn:E; [destruct c; cbn in Hh; lia|].
+  apply pack_nals_frame. assumption.
+Qed.
+
+(* the NAL-level units of a sequence of AvPackets (ms, NAL list) *)
+Definition frames_units (c : vcodec) (maxp rate : N) (frames : list (N * list bytes)) : list wire_unit :=
+  concat (map (fun f => map (fun nal => video_unit c maxp rate (rtp_timestamp (fst f) rate, nal))
+                            (filter (not_aud c) (snd f))) frames).
+
+Lemma flat_app a b : flat (a ++ b) = flat a ++ flat b.
+Proof. unfold flat. rewrite map_app, concat_app. reflexivity. Qed.
+
+(* RtpPacker.Pack over AVCC frames emits exactly the packets of the NAL-level
+   unit stream (same sequence numbers, timestamps, payloads) *)
+Theorem pack_frames_arrivals c pt rate ssrc maxp (o : list avout) :
+  forall frames s, (s < 65536)%N ->
+  map arrival_of (concat (fst (rtp_pack_stream pt rate ssrc s
+                                 (map (fun f => (fst f, frame_payloads c maxp (snd f))) frames))))
+  = map upkt_arrival (pkts (unit_stream (proto_of_codec c) s (frames_units c maxp rate frames))).
+Proof.
+  intros frames s Hs.
+  rewrite (rtp_pack_stream_arrivals (proto_of_codec c) pt rate ssrc o) by assumption.
+  rewrite !arrivals_flat by assumption. f_equal. clear s Hs.
+  induction frames as [|[ms nals] t IH]; [reflexivity|].
+  unfold frames_units in *. cbn [map concat fst snd]. rewrite flat_app, <- IH. clear IH.
+  change (flat ((rtp_timestamp ms rate, frame_payloads c maxp nals, o) :: ?x)) with
+    (map (pair (rtp_timestamp ms rate)) (frame_payloads c maxp nals) ++ flat x).
+  unfold flat at 1. cbn [map concat fst snd]. fold (flat (map (fun f : N * list bytes => (rtp_timestamp (fst f) rate, snd f, o))
+    (map (fun f : N * list bytes => (fst f, frame_payloads c maxp (snd f))) t))).
+  f_equal. unfold frame_payloads, flat. generalize (filter (not_aud c) nals). intros l.
+  induction l as [|nal l' IHl]; [reflexivity|]. cbn [map concat fst snd video_unit]. rewrite map_app. f_equal. exact IHl.
+Qed.
